@@ -32,7 +32,10 @@ def main():
             for l in lines[-8:]: print("   ", l[:300])
             if r.returncode == 2: print(r.stderr[-1500:])
             # replays written by a mutant run are not wanted in the checkout
-            subprocess.run("git clean -fdq replays evidence; git checkout -q -- evidence 2>/dev/null", shell=True, cwd="/verif")
+            import glob
+            for f in glob.glob(f"/verif/replays/{prop}/new-*.json"):
+                os.remove(f)
+            subprocess.run(f"git checkout -q -- evidence/{prop}.json 2>/dev/null", shell=True, cwd="/verif")
     finally:
         shutil.rmtree(tmp, ignore_errors=True)
 
